@@ -1,4 +1,4 @@
-import QP.Proofs.C10Log
+import QP.Proofs.C10Share
 /-!
 # Property theorems for C10 — stored pulse templates load back as the same pulse
 
@@ -140,6 +140,47 @@ theorem order_independent (F F' : List T) (hp : F.Perm F') (hu : UniqueIds F) (h
       rw [(hc j d).mpr ⟨c, (hmem c).mpr hcm, hj, hd⟩] at hl
       exact absurd hl (by simp)
 
+/-- **shared_once**: loading through a storage with a temporary storage (cache) that is *good* — every
+cached object is the forest's node of that identifier, `built` lists the cached identifiers without
+repetition — returns the original node, leaves the cache good and keeps what was cached. Starting from
+the empty cache, whatever identifiers are requested in whatever order: every identifier is deserialised
+at most once and every parent's reference to it yields that one object. -/
+theorem shared_once (F : List T) (hu : UniqueIds F) (hwf : ∀ r ∈ F, r.wf = true)
+    (hn : ∀ r ∈ F, r.named = true) {st : St} {log : List (Id × J)} (h : storeAll {} F = .ok (st, log)) :
+    ∀ c ∈ F.flatMap namedSub, ∀ j, c.id = some j → ∀ f, 2 * depth c ≤ f →
+    ∀ cache, GoodCache F cache →
+      ∃ cache', loadC f st.backend cache j = .ok (c, cache') ∧ GoodCache F cache' ∧ Ext cache cache' := by
+  obtain ⟨hinv, hroots⟩ := session hu hn h
+  intro c hc j hj f hf cache hg
+  have hcU := (mem_namedSub_flat.mp hc).1
+  obtain ⟨r, hr, hcr⟩ := List.mem_flatMap.mp hcU
+  have hsubU : ∀ x ∈ subterms c, x ∈ Univ F := fun x hx => mem_univ_of_root hr (subterms_trans r c hcr x hx)
+  have hcl : Closed st.backend (subterms c) := fun x hx k hk => (stored_of_inv hu hinv hroots hn (hsubU x hx) hk).2
+  have hb := decC_body hu st.backend c (wf_subterms r (hwf r hr) c hcr) hsubU hcl
+  have hself : ∀ i, c.id = some i → lookup i st.backend = some (body c) :=
+    fun i hi => hcl c (self_mem_subterms c) i hi
+  obtain ⟨cache', h1, s1⟩ := decC_emit_of_body hu st.backend hcU hb hself (f + 1) (by omega) cache hg
+  refine ⟨cache', ?_, s1.good, s1.ext⟩
+  have : emit c = ref j := by cases c with | node cls id items => simp only [T.id] at hj; subst hj; simp only [emit]
+  rw [this, decTC_ref] at h1
+  exact h1
+
+/-- the empty temporary storage of a fresh `PulseStorage` is good -/
+theorem fresh_cache_good (F : List T) : GoodCache F {} := goodCache_empty F
+
+/-- the executable twin of `UniqueIds` -/
+theorem uniqueIds_iff (F : List T) : uniqueIdsB F = true ↔ UniqueIds F := by
+  simp only [uniqueIdsB, UniqueIds, List.all_eq_true, Bool.or_eq_true, decide_eq_true_eq, ne_eq]
+  constructor
+  · intro h a ha b hb hab
+    rcases h a ha b hb with h' | h'
+    · exact absurd hab h'
+    · exact h'
+  · intro h a ha b hb
+    by_cases hab : a.id = b.id
+    · exact Or.inr (h a ha b hb hab)
+    · exact Or.inl hab
+
 /-! ### error branches: rejected, never altered -/
 
 /-- storing under a foreign identifier is rejected (`ValueError`) -/
@@ -175,5 +216,30 @@ example : ((store example_root).toOption.bind fun r => (load 10 r.1.backend "roo
   decide
 example : ((store example_root).toOption.bind fun r => (load 10 r.1.backend "sh").toOption) = some shared := by
   decide
+/-- the caching loader builds the shared pulse once -/
+example : ((store example_root).toOption.bind fun r => (loadC 10 r.1.backend {} "root").toOption).map
+    (fun r => r.2.built) = some ["sh", "c2", "root"] := by decide
+
+/-! every class constructor yields a well-formed node on plain data -/
+private def a : J := .atom "x"
+private def leafA : T := T.const none a a a []
+example : (T.table (some "t") a [a] [] false).wf = true := by decide
+example : (T.point none a a [] [a]).wf = true := by decide
+example : (T.func none a a a [a] [a]).wf = true := by decide
+example : (T.const (some "c") a a a [a]).wf = true := by decide
+example : (T.seq none [leafA, leafA] [a] []).wf = true := by decide
+example : (T.rep none leafA a [] [a]).wf = true := by decide
+example : (T.forLoop (some "f") leafA a a [a] [a]).wf = true := by decide
+example : (T.mapping none leafA [("p", a)] [] [("c", a)] [a]).wf = true := by decide
+example : (T.amc none [leafA, leafA] [] [] (some a)).wf = true := by decide
+example : (T.amc none [leafA] [a] [a]).wf = true := by decide
+example : (T.par none leafA a).wf = true := by decide
+example : (T.arithAtomic none leafA a leafA [a]).wf = true := by decide
+example : (T.arithL none leafA a a).wf = true := by decide
+example : (T.arithR none a a leafA).wf = true := by decide
+example : (T.timeRev (some "r") leafA).wf = true := by decide
+example : (T.abstr "abs" [("defined_channels", a), ("integral", a)]).wf = true := by decide
+/-- outside the constructors' range: an anonymous mapping directly inside a mapping (it is flattened on construction) -/
+example : (T.mapping none (T.mapping none leafA [] [] [] []) [] [] [] []).wf = false := by decide
 
 end QP.Props.C10
